@@ -10,13 +10,27 @@ import (
 	"github.com/jsightapi/jsight-api-go-library/notation"
 )
 
+// unescapeParameter returns the value of a parameter: the bytes themselves when it is not in
+// double quotes, otherwise the text between the quotes with \" and \\ unescaped, left to
+// right, each escape once.
 func unescapeParameter(b bytes.Bytes) bytes.Bytes {
-	c := b.Unquote()
-	if len(c) != 0 && len(c) != len(b) {
-		c = stdBytes.ReplaceAll(c, []byte(`\"`), []byte(`"`))
-		c = stdBytes.ReplaceAll(c, []byte(`\\`), []byte(`\`))
+	if !b.InQuotes() {
+		return b
 	}
-	return c
+
+	c := b[1 : len(b)-1]
+	if stdBytes.IndexByte(c, '\\') == -1 {
+		return c
+	}
+
+	res := make(bytes.Bytes, 0, len(c))
+	for i := 0; i < len(c); i++ {
+		if c[i] == '\\' && i+1 < len(c) && (c[i+1] == '"' || c[i+1] == '\\') {
+			i++
+		}
+		res = append(res, c[i])
+	}
+	return res
 }
 
 func IsArrayOfTypes(b bytes.Bytes) bool {
